@@ -36,6 +36,7 @@ import (
 )
 
 type beh struct {
+	Prior     string   `json:"prior"`
 	Urls      []string `json:"urls"`
 	Cache     string   `json:"cache"`
 	Contacted []int    `json:"contacted"`
@@ -76,6 +77,7 @@ func (t *tsa) ServeHTTP(rw http.ResponseWriter, r *http.Request) {
 	body, _ := io.ReadAll(r.Body)
 	t.omu.Lock()
 	*t.order = append(*t.order, t.idx)
+	behaviour := t.b
 	t.omu.Unlock()
 	req, err := cmsx.ParseRequest(body)
 	if err != nil {
@@ -85,7 +87,7 @@ func (t *tsa) ServeHTTP(rw http.ResponseWriter, r *http.Request) {
 	o := cmsx.TSAOpts{GenTime: time.Now(), Nonce: req.Nonce, Imprint: req.MessageImprint.HashedMessage,
 		ImprintAlg: pkix.AlgorithmIdentifier{Algorithm: req.MessageImprint.HashAlgorithm.Algorithm, Parameters: asn1.RawValue{Tag: 5}}}
 	rw.Header().Set("Content-Type", "application/timestamp-reply")
-	switch t.b {
+	switch behaviour {
 	case "valid":
 	case "grantedWithMods":
 		o.Status = 1
@@ -117,6 +119,20 @@ func (t *tsa) ServeHTTP(rw http.ResponseWriter, r *http.Request) {
 		case <-time.After(3 * time.Second):
 		}
 		return
+	case "stallBody":
+		// status and headers arrive, then half of an otherwise perfect reply, then nothing
+		full := cmsx.Response(t.id.Key, t.id.Cert, o)
+		rw.Header().Set("Content-Length", fmt.Sprint(len(full)))
+		rw.WriteHeader(200)
+		rw.Write(full[:len(full)/2])
+		if f, ok := rw.(http.Flusher); ok {
+			f.Flush()
+		}
+		select {
+		case <-r.Context().Done(): // the client gave up on this authority
+		case <-time.After(8 * time.Second):
+		}
+		return
 	case "garbage":
 		rw.Write([]byte("this is not DER"))
 		return
@@ -124,7 +140,7 @@ func (t *tsa) ServeHTTP(rw http.ResponseWriter, r *http.Request) {
 		rw.Write(append(cmsx.Response(t.id.Key, t.id.Cert, o), 0, 0, 0))
 		return
 	default:
-		panic("unknown behaviour " + t.b)
+		panic("unknown behaviour " + behaviour)
 	}
 	rw.Write(cmsx.Response(t.id.Key, t.id.Cert, o))
 }
@@ -227,8 +243,10 @@ func replayOne(r *res.Result, w *world, b *beh, n int) {
 	var omu sync.Mutex
 	conf := &config.TimestampConfig{Timeout: 1}
 	var servers []*httptest.Server
+	var tsas []*tsa
 	for i, bh := range b.Urls {
 		t := &tsa{id: w.tsas[i], b: bh, order: &order, omu: &omu, idx: i + 1}
+		tsas = append(tsas, t)
 		s := httptest.NewUnstartedServer(t)
 		if l, err := listenRetry(); err == nil {
 			s.Listener.Close()
@@ -264,6 +282,28 @@ func replayOne(r *res.Result, w *world, b *beh, n int) {
 	if err != nil {
 		panic(err)
 	}
+	if b.Prior == "lastWon" {
+		// the client's history: an earlier request that only the LAST authority answered
+		omu.Lock()
+		for i, t := range tsas {
+			t.b = "httpError"
+			if i == len(tsas)-1 {
+				t.b = "valid"
+			}
+		}
+		omu.Unlock()
+		pre := w.newSignature([]byte(fmt.Sprintf("earlier content %d", n)))
+		if _, perr := pkcs9.TimestampAndMarshal(context.Background(), pre, cl, false); perr != nil {
+			r.Note("the earlier request of a lastWon history failed: %v", perr)
+		}
+		omu.Lock()
+		for i, t := range tsas {
+			t.b = b.Urls[i]
+		}
+		order = nil
+		omu.Unlock()
+		r.Count("histories_lastWon", 1)
+	}
 	var ts *pkcs9.TimestampedSignature
 	func() {
 		defer func() {
@@ -272,7 +312,20 @@ func replayOne(r *res.Result, w *world, b *beh, n int) {
 				r.Fail(map[string]string{"engine": "timestamp", "kind": "panic"}, b, "signing panicked instead of trying the next authority: %v", p)
 			}
 		}()
+		t0 := time.Now()
 		ts, err = pkcs9.TimestampAndMarshal(context.Background(), psd, cl, false)
+		// an authority that stops answering - before or after its status line - is abandoned after the configured
+		// timeout (1 s here), not whenever it pleases
+		slow := 0
+		for _, k := range b.Contacted {
+			if k >= 1 && k <= len(b.Urls) && (b.Urls[k-1] == "hang" || b.Urls[k-1] == "stallBody") {
+				slow++
+			}
+		}
+		if el, bound := time.Since(t0), time.Duration(slow)*time.Second+4*time.Second; el > bound {
+			r.Fail(map[string]string{"engine": "timestamp", "kind": "stalled-authority-not-abandoned"}, b,
+				"%d unresponsive authorit(ies) with a 1 s timeout: the request took %v (bound %v): an authority that stalls is not given up", slow, el.Round(100*time.Millisecond), bound)
+		}
 	}()
 	if err != nil && strings.HasPrefix(err.Error(), "PANIC") {
 		return
